@@ -940,7 +940,8 @@ func runLimits(t *testing.T, ksc KScenario, res *KResult) {
 			effD := time.Duration(eff) * time.Millisecond
 			if gap < effD-20*time.Millisecond {
 				sig := limSigIdleEarly
-				if cfgIdle < effD {
+				if cfgIdle < effD && gap >= cfgIdle-20*time.Millisecond {
+					// it went at (or after) the value its Config yields
 					sig += limCfgIdle
 					if adv.idleMS == 0 {
 						res.Probe("finding:idle-timeout-from-config:spec-advertises-none")
